@@ -42,12 +42,11 @@ def WriteLoop.step (w : WriteLoop) : WEvent → WriteLoop
   | .service batch => { w with buf := w.buf ++ batch, produced := w.produced ++ batch }
   | .stalled => w
   | .accepted n =>
-    let k := min n w.offered.length
-    let w1 := { w with wire := w.wire ++ w.offered.take k, cursor := w.cursor + k }
-    if w.offered.length > 0 && w1.cursor == w1.buf.length then
+    let k := min n (w.buf.length - w.cursor)
+    if 0 < k ∧ w.cursor + k = w.buf.length then
       -- batch fully written: clear, flush, report write completion
-      { w1 with buf := [], cursor := 0, completions := w1.completions + 1 }
-    else w1
+      { w with wire := w.wire ++ (w.buf.drop w.cursor).take k, buf := [], cursor := 0, completions := w.completions + 1 }
+    else { w with wire := w.wire ++ (w.buf.drop w.cursor).take k, cursor := w.cursor + k }
 
 def WriteLoop.run (w : WriteLoop) (evs : List WEvent) : WriteLoop := evs.foldl WriteLoop.step w
 
